@@ -56,6 +56,171 @@ def b2_run(it, entry, inp, p):
     return [bits8(x) for x in it.read_buffer(S, 64)]
 
 
+# ---- AES-256-GCM (AES-NI/PCLMUL unit) vs SP 800-38D spec ----------------
+# key and nonce are concrete (two fixed values): the tag is then a GF(2)-affine function of message and
+# associated data, decided by the affine-canonical graph; message, ad and the forged-tag delta are symbolic
+GCM_KEYS = [bytes((7 * i + 3) & 0xff for i in range(32)), bytes.fromhex("feffe9928665731c6d6a8f9467308308feffe9928665731c6d6a8f9467308308")]
+GCM_IVS = [bytes((0x51 + 29 * i) & 0xff for i in range(12)), bytes.fromhex("cafebabefacedbaddecaf888")]
+
+
+def gcm_inputs(p):
+    inp = {"key": list(GCM_KEYS[p.get("key", 0)]), "iv": list(GCM_IVS[p.get("key", 0)]),
+           "msg": sym_bytes("m", p["mlen"]), "ad": sym_bytes("a", p["adlen"])}
+    if p["form"] == "dec_forged_tag":
+        inp["delta"] = sym_bytes("d", 16)
+    return inp
+
+
+def _b(x):
+    return bits8(x)
+
+
+def _cb(v, n):
+    return [aig.const_bits((v >> (8 * i)) & 0xff, 8) for i in range(n)]
+
+
+def gcm_expected(inp, p):
+    from . import gcm_spec
+    c, tag = gcm_spec.gcm_encrypt([_b(x) for x in inp["key"]], [_b(x) for x in inp["iv"]], [_b(x) for x in inp["msg"]], [_b(x) for x in inp["ad"]])
+    return c, tag
+
+
+def gcm_spec_out(inp, p):
+    c, tag = gcm_expected(inp, p)
+    f = p["form"]
+    ml = p["mlen"]
+    ok, fail = [aig.const_bits(0, 32)], [aig.const_bits(0xffffffff, 32)]
+    if f in ("enc_detached", "enc_detached_afternm"):
+        return ok + c + tag + _cb(16, 8)
+    if f in ("enc", "enc_inplace"):
+        return ok + c + tag + _cb(ml + 16, 8)
+    if f in ("dec_detached", "dec_detached_inplace"):
+        return ok + [_b(x) for x in inp["msg"]]
+    if f in ("dec", "dec_inplace"):
+        return ok + [_b(x) for x in inp["msg"]] + _cb(ml, 8)
+    if f == "dec_verify_only":
+        return ok
+    if f in ("dec_forged_tag", "dec_forged_c", "dec_forged_ad", "dec_truncated"):
+        if f == "dec_truncated":
+            return fail + _cb(0, 8)
+        return fail + [aig.const_bits(0xd0, 8)] * ml + _cb(0, 8)
+    if f == "verify_only_forged":
+        return fail
+    raise KeyError(f)
+
+
+def _flip(byte_bits, bit):
+    return aig.mkv([l ^ (1 if i == bit else 0) for i, l in enumerate(byte_bits)])
+
+
+def gcm_run(it, entry, inp, p):
+    f, ml, al = p["form"], p["mlen"], p["adlen"]
+    A = lambda fn: _name(it, fn)
+    ret = lambda r: [aig.const_bits(r & 0xffffffff, 32)] if not isinstance(r, aig.AV) else [r.bits]
+    k = it.new_buffer(32, "k", False, inp["key"])
+    n = it.new_buffer(12, "npub", False, inp["iv"])
+    ad = it.new_buffer(al, "ad", False, [0] * al)
+    fill(it, ad, inp["ad"])
+    ln = it.new_buffer(8, "len_p", False, [0xee] * 8)
+    if f.startswith("enc"):
+        if f == "enc_inplace":
+            buf = it.new_buffer(ml + 16, "buf", False, [0] * (ml + 16))
+            fill(it, buf, inp["msg"])
+            r = it.call(A("crypto_aead_aes256gcm_encrypt"), [buf, ln, buf, ml, ad, al, 0, n, k])
+            return ret(r) + [_b(x) for x in it.read_buffer(buf, ml + 16)] + [_b(x) for x in it.read_buffer(ln, 8)]
+        m = it.new_buffer(ml, "m", False, [0] * ml)
+        fill(it, m, inp["msg"])
+        if f == "enc":
+            c = it.new_buffer(ml + 16, "c", False, [0] * (ml + 16))
+            r = it.call(A("crypto_aead_aes256gcm_encrypt"), [c, ln, m, ml, ad, al, 0, n, k])
+            return ret(r) + [_b(x) for x in it.read_buffer(c, ml + 16)] + [_b(x) for x in it.read_buffer(ln, 8)]
+        c = it.new_buffer(ml, "c", False, [0] * ml)
+        mac = it.new_buffer(16, "mac", False, [0] * 16)
+        if f == "enc_detached":
+            r = it.call(A("crypto_aead_aes256gcm_encrypt_detached"), [c, mac, ln, m, ml, ad, al, 0, n, k])
+        else:
+            st = it.new_buffer(512, "ctx", False, [0] * 512)
+            it.call(A("crypto_aead_aes256gcm_beforenm"), [st, k])
+            r = it.call(A("crypto_aead_aes256gcm_encrypt_detached_afternm"), [c, mac, ln, m, ml, ad, al, 0, n, st])
+        return ret(r) + [_b(x) for x in it.read_buffer(c, ml)] + [_b(x) for x in it.read_buffer(mac, 16)] + [_b(x) for x in it.read_buffer(ln, 8)]
+    # decrypt forms: the presented ciphertext and tag are the specification's (canonical literals over m / ad)
+    c, tag = gcm_expected(inp, p)
+    c = [aig.mkv(x) for x in c]
+    tag = [aig.mkv(x) for x in tag]
+    if f == "dec_forged_tag":
+        d = inp["delta"]
+        tag = [T.binop("xor", x, y, 8) for x, y in zip(tag, d)]
+        nz = 0
+        for x in d:
+            for l in bits8(x):
+                nz = aig.G.OR(nz, l)
+        it.assume_lits = [nz]          # delta != 0
+    elif f in ("dec_forged_c", "verify_only_forged"):
+        j = p["pos"]
+        c[j] = _flip(_b(c[j]), p.get("bit", 0))
+    elif f == "dec_forged_ad":
+        j = p["pos"]
+        fill(it, Ptr_off(ad, j), [_flip(_b(inp["ad"][j]), p.get("bit", 0))])
+    if f in ("dec_detached", "dec_detached_inplace", "dec_verify_only", "verify_only_forged"):
+        cb = it.new_buffer(ml, "c", False, [0] * ml)
+        fill(it, cb, c)
+        mac = it.new_buffer(16, "mac", False, [0] * 16)
+        fill(it, mac, tag)
+        if f in ("dec_verify_only", "verify_only_forged"):
+            r = it.call(A("crypto_aead_aes256gcm_decrypt_detached"), [0, 0, cb, ml, mac, ad, al, n, k])
+            return ret(r)
+        mo = cb if f == "dec_detached_inplace" else it.new_buffer(ml, "mout", False, [0x11] * ml)
+        r = it.call(A("crypto_aead_aes256gcm_decrypt_detached"), [mo, 0, cb, ml, mac, ad, al, n, k])
+        return ret(r) + [_b(x) for x in it.read_buffer(mo, ml)]
+    if f == "dec_truncated":
+        tl = p["clen"]
+        cb = it.new_buffer(tl, "c", False, [0] * tl)
+        fill(it, cb, (c + tag)[:tl])
+        mo = it.new_buffer(1, "mout", False, [0x11])
+        r = it.call(A("crypto_aead_aes256gcm_decrypt"), [mo, ln, 0, cb, tl, ad, al, n, k])
+        return ret(r) + [_b(x) for x in it.read_buffer(ln, 8)]
+    cb = it.new_buffer(ml + 16, "c", False, [0] * (ml + 16))
+    fill(it, cb, c + tag)
+    mo = cb if f == "dec_inplace" else it.new_buffer(ml, "mout", False, [0x11] * ml)
+    r = it.call(A("crypto_aead_aes256gcm_decrypt"), [mo, ln, 0, cb, ml + 16, ad, al, n, k])
+    return ret(r) + [_b(x) for x in it.read_buffer(mo, ml)] + [_b(x) for x in it.read_buffer(ln, 8)]
+
+
+def Ptr_off(p, off):
+    return interp.Ptr(p.obj, p.off + off)
+
+
+GCM_UNITS = ["crypto_aead/aes256gcm/aesni/aead_aes256gcm_aesni.c", "crypto_verify/verify.c", "sodium/utils.c"]
+_GL = (0, 1, 15, 16, 17, 31, 32, 33, 63, 64, 65, 111, 112, 113, 127, 128, 223, 224, 225, 239, 240, 241, 335, 336, 337, 447, 448, 449)
+
+
+def _gcm_shapes(tier):
+    q = []
+    # every aggregation tier of the message ladder (14/7/4/2/1 blocks + partial) and of gh_ad_blocks
+    for ml in ((0, 1, 16, 17, 33, 65, 112, 113, 225, 449) if tier == "quick" else _GL):
+        q.append(dict(form="enc_detached", mlen=ml, adlen=13 if ml % 2 else 0))
+    for al in ((1, 16, 17, 33, 65, 112, 113, 224, 225, 449) if tier == "quick" else _GL[1:]):
+        q.append(dict(form="enc_detached", mlen=17 if al % 2 else 0, adlen=al))
+    for ml, al in ((0, 0), (17, 5), (113, 16), (225, 225)) if tier == "quick" else [(a, b) for a in (0, 1, 16, 33, 113, 225, 337) for b in (0, 5, 16, 113, 225)]:
+        for f in ("enc", "enc_inplace", "enc_detached_afternm", "dec_detached", "dec", "dec_inplace", "dec_detached_inplace", "dec_verify_only", "dec_forged_tag"):
+            q.append(dict(form=f, mlen=ml, adlen=al))
+    for ml in ((1, 17, 113, 225, 449) if tier == "quick" else _GL[1:]):
+        q.append(dict(form="dec_verify_only", mlen=ml, adlen=0))
+        for pos in sorted(set((0, ml // 2, ml - 1))):
+            q.append(dict(form="dec_forged_c", mlen=ml, adlen=3, pos=pos, bit=pos % 8))
+            q.append(dict(form="verify_only_forged", mlen=ml, adlen=3, pos=pos, bit=(pos + 3) % 8))
+    for al in ((1, 17, 113, 225) if tier == "quick" else _GL[1:]):
+        for pos in sorted(set((0, al - 1))):
+            q.append(dict(form="dec_forged_ad", mlen=5, adlen=al, pos=pos, bit=7 - pos % 8))
+    for tl in (0, 1, 15):
+        q.append(dict(form="dec_truncated", mlen=16, adlen=0, clen=tl))
+    if tier != "quick":
+        for x in list(q):
+            if x["form"] in ("enc_detached",) and x["mlen"] in (0, 17, 113, 225) :
+                q.append(dict(x, key=1))
+    return q
+
+
 CH = "crypto_stream/chacha20/"
 SA = "crypto_stream/salsa20/"
 B2 = "crypto_generichash/blake2b/ref/"
@@ -89,6 +254,16 @@ TARGETS = [
 ]
 
 
+_GCM_ROUTES = {"spec": ("enc_detached", "enc", "enc_detached_afternm", "dec_detached", "dec"),
+               "forgery": ("dec_forged_tag", "dec_forged_c", "dec_forged_ad", "verify_only_forged", "dec_truncated", "dec_verify_only"),
+               "inplace": ("enc_inplace", "dec_inplace", "dec_detached_inplace")}
+for _r, _forms in sorted(_GCM_ROUTES.items()):
+    _q = [x for x in _gcm_shapes("quick") if x["form"] in _forms]
+    TARGETS.append(dict(name="aes256gcm-aesni-" + _r, inputs=gcm_inputs, run=gcm_run, affine=True,
+                        a=dict(spec=gcm_spec_out), b=dict(units=GCM_UNITS, entry=None), quick=_q,
+                        thorough=[x for x in _gcm_shapes("thorough") if x["form"] in _forms and x not in _q]))
+
+
 def params_of(t, tier):
     return list(t["quick"]) + (list(t["thorough"]) if tier == "thorough" else [])
 
@@ -113,21 +288,31 @@ def run_one(tname, tier, pidx, workroot, budget=900):
     t0 = time.time()
     try:
         T.MODE = "aig"
-        aig.reset()
+        aig.reset(t.get("affine", False))
         inp = t["inputs"](p)
         outs = []
         steps = []
+        cnfdir = os.path.join(workroot, "cnf-%d" % os.getpid())
+        os.makedirs(cnfdir, exist_ok=True)
+        obs_sat = 0
         for side, tag in ((t["a"], tname + "-a"), (t["b"], tname + "-b")):
+            if "spec" in side:
+                outs.append(side["spec"](inp, p))
+                steps.append(0)
+                continue
             mod = load(side, workroot, tag)
             it = interp.Interp(mod, None)
+            it.sat_dir = cnfdir
             outs.append(t["run"](it, side["entry"], inp, p))
             steps.append(it.steps)
+            obs_sat += it.sat_calls
+        if [len(v) for v in outs[0]] != [len(v) for v in outs[1]]:
+            raise KeyError("output shapes differ: %r vs %r" % ([len(v) for v in outs[0]][:8], [len(v) for v in outs[1]][:8]))
         nodes = aig.G.size()
         nbits = sum(len(v) for v in outs[0])
         ident = sum(1 for va, vb in zip(*outs) for x, y in zip(va, vb) if x == y)
-        cnfdir = os.path.join(workroot, "cnf-%d" % os.getpid())
-        os.makedirs(cnfdir, exist_ok=True)
         verdict, info = equiv.check_equal(outs[0], outs[1], cnfdir, budget_s=budget)
+        info["sat_calls"] = info.get("sat_calls", 0) + obs_sat
         res.update(ir_steps=steps, graph_nodes=nodes, output_bits=nbits, structurally_identical_bits=ident,
                    sat_calls=info.get("sat_calls", 0), unsat=info.get("unsat", 0), sat_time_s=round(info.get("sat_time", 0), 2),
                    merged=info.get("merged", 0))
@@ -139,7 +324,24 @@ def run_one(tname, tier, pidx, workroot, budget=900):
             res["assignment"] = info.get("assignment")
         else:
             res["detail"] = "equivalence not decided within budget: %s" % {k: info[k] for k in info if k != "assignment"}
-    except (interp.Unsupported, interp.Violation, build.IRBuildError, SyntaxError, KeyError, aig.T_Unsupported) as e:
+    except interp.Violation as e:
+        res["detail"] = "%s: %s" % (type(e).__name__, str(e)[:500])
+        if e.kind == "symbolic-control" and e.model:
+            # control flow that the specification fixes depends on symbolic input: one of the two witnesses must
+            # make the outputs differ from the specification's -- decided by concrete re-execution
+            for assign in e.model:
+                try:
+                    oa, ob = concrete_outputs(t, p, assign, workroot)
+                except Exception as e2:
+                    res["detail"] += " / concrete run: %r" % (e2,)
+                    continue
+                if oa != ob:
+                    res.update(status="violation", assignment=assign,
+                               detail="control flow depends on symbolic input and the outputs differ from the specification's: " + res["detail"])
+                    break
+        elif e.kind == "memory":
+            res["detail"] = "memory-safety violation in the interpreted unit: " + res["detail"]
+    except (interp.Unsupported, build.IRBuildError, SyntaxError, KeyError, aig.T_Unsupported) as e:
         res["detail"] = "%s: %s" % (type(e).__name__, str(e)[:500])
     except Exception:
         res["detail"] = "exception: " + traceback.format_exc()[-700:]
@@ -147,13 +349,10 @@ def run_one(tname, tier, pidx, workroot, budget=900):
     return res
 
 
-def replay(tname, tier, pidx, workroot, assign_path):
-    """concrete re-execution of both units on the counterexample input; exit 1 if outputs differ"""
-    t = [x for x in TARGETS if x["name"] == tname][0]
-    p = params_of(t, tier)[pidx]
-    assign = json.load(open(assign_path))
+def concrete_outputs(t, p, assign, workroot):
+    tname = t["name"]
     T.MODE = "aig"
-    aig.reset()
+    aig.reset(t.get("affine", False))
     inp = t["inputs"](p)
     # concretise: map every input literal name to its value
     val = {}
@@ -171,10 +370,22 @@ def replay(tname, tier, pidx, workroot, assign_path):
     cinp = {k: ([conc(e) for e in v] if isinstance(v, list) else conc(v)) for k, v in inp.items()}
     outs = []
     for side, tag in ((t["a"], tname + "-a"), (t["b"], tname + "-b")):
-        mod = load(side, workroot, tag)
-        it = interp.Interp(mod, None)
-        o = t["run"](it, side["entry"], cinp, p)
+        if "spec" in side:
+            o = side["spec"](cinp, p)
+        else:
+            mod = load(side, workroot, tag)
+            it = interp.Interp(mod, None)
+            o = t["run"](it, side["entry"], cinp, p)
         outs.append([sum(b << i for i, b in enumerate(v)) for v in o])
+    return outs
+
+
+def replay(tname, tier, pidx, workroot, assign_path):
+    """concrete re-execution of both sides on the counterexample input; exit 1 if outputs differ"""
+    t = [x for x in TARGETS if x["name"] == tname][0]
+    p = params_of(t, tier)[pidx]
+    assign = json.load(open(assign_path))
+    outs = concrete_outputs(t, p, assign, workroot)
     if outs[0] != outs[1]:
         k = [i for i, (x, y) in enumerate(zip(*outs)) if x != y][0]
         print("REPLAY-FAIL: reference and %s outputs differ at byte %d: %02x vs %02x" % (tname, k, outs[0][k], outs[1][k]))
